@@ -38,8 +38,8 @@ Whole == pre \o items \o post
 
 \* the (possibly mutated) swap used by the loops of this machine
 MSwapDown(a, b) == LET sw == SwapDown(a, b)
-                   IN IF WrongSwap /\ sw # NoSwap /\ sw[1].t = "E" /\ sw[1].c[2] = 0 /\ sw[1].d[sw[1].c[1]] >= 2
-                      THEN <<MkE(sw[1].d, sw[1].c[1], 1), sw[2]>> ELSE sw
+                   IN IF WrongSwap /\ sw # NoSwap /\ sw[1].t = "SE" /\ sw[1].c[2] = 0 /\ sw[1].c[1] >= 2
+                      THEN <<MkSE(sw[1].c[1], 1), sw[2]>> ELSE sw
 MCanonStep(its, q) ==
     LET sw == MSwapDown(its[q], its[q + 1])
     IN IF sw # NoSwap THEN <<[[its EXCEPT ![q] = sw[1]] EXCEPT ![q + 1] = sw[2]], IF q > 1 THEN q - 1 ELSE q>>
@@ -56,7 +56,7 @@ AddChild == /\ pc = "build" /\ round = 0 /\ Built < MaxLen
             /\ \E it \in ChildItems(cur) : chain' = Append(chain, it)
             /\ UNCHANGED <<ref0, cur, pc, alg, nd, pre, items, post, p, steps, round>>
 AddEdge == /\ pc = "build" /\ round = 0 /\ Built < MaxLen /\ TcSum(cur) >= 1
-           /\ \E it \in EdgeItems(cur) : chain' = Append(chain, it) /\ cur' = FromRef(it)
+           /\ \E it \in EdgeItems(cur) : chain' = Append(chain, it) /\ cur' = EdgeFromRef(cur, EdgeFactor(it))
            /\ UNCHANGED <<ref0, pc, alg, nd, pre, items, post, p, steps, round>>
 
 Begin(a, n, pr, its, po, q, state) ==
